@@ -13,7 +13,7 @@ def run(ck):
         g = dict(g); g["orc"] = 0
         g["calls"] = [pcall(a, f, extra=False) for a in COVERS for f in ("list", "dict")]
         groups.append(g)
-    fam = gen.cover_families(ck.rng, 400 if q else 30000, maxn=40) + gen.near_miss_families(ck.rng, 60 if q else 600)
+    fam = gen.cover_families(ck.rng, 400 if q else 30000, maxn=40) + gen.near_miss_families(ck.rng, 60 if q else 600, giga=True)
     for g in fam:
         g = dict(g); g["orc"] = 0
         g["calls"] = [pcall(a, f, extra=False) for a in COVERS for f in ("list", "dict")]
